@@ -107,6 +107,69 @@ def unclassifiedSources : List Nat := (errSources.filter fun s => !sourceOk s).m
 /-- Flows whose error text still shows a secret at the sink. -/
 def rawFlows : List (Nat × Nat) := (errFlows.filter fun f => f.raw).map fun f => (f.source, f.site)
 
+/-! ## where a password can enter -/
+
+/-- What enters at a place where the program reads from outside. -/
+inductive InputKind
+  | passwordTerminal  -- `term.ReadPassword` in `askPassword` (drc -u USER)
+  | passwordFile      -- the credentials file read by `getSystemPassword`
+  | flag              -- a command line flag: none takes a password
+  | environment       -- an environment variable: none holds a password
+  | arguments         -- `os.Args` (usage text, logging of the command line)
+  | terminalHandle    -- `os.Stdin` as file descriptor for `term.ReadPassword`
+  | dataFile          -- configuration, code, info, status files
+  deriving DecidableEq, Repr
+
+def InputKind.isPassword : InputKind → Bool
+  | .passwordTerminal | .passwordFile => true
+  | _ => false
+
+/-- Hand-written: every regenerated input place (id = hash of package, API, literal name, ordinal). -/
+def inputKinds : List (Nat × InputKind) := [
+  (1115508938, .dataFile),   -- codefiles.LoadInfoFile: os.Open 
+  (2428848602, .environment),   -- mytime.Now: os.Getenv TEST_TIME
+  (2506920320, .dataFile),   -- program.LoadConfig: os.ReadFile 
+  (4142683994, .terminalHandle),   -- program.Config.askPassword: os.Stdin 
+  (1756730485, .passwordTerminal),   -- program.Config.askPassword: term.ReadPassword 
+  (2557253177, .passwordFile),   -- program.Config.getSystemPassword: os.ReadFile 
+  (816535420, .dataFile),   -- status.Read: os.ReadFile 
+  (1466318609, .environment),   -- httpdevice.GetHTTPClient: os.Getenv SIMULATE_ROUTER
+  (945662864, .environment),   -- panos.State.ApplyCommands$commit: os.Getenv SIMULATE_ROUTER
+  (3397785892, .environment),   -- console.GetSSHConn: os.Getenv SIMULATE_ROUTER
+  (1369869031, .environment),   -- linux.State.putScp: os.Getenv SIMULATE_ROUTER
+  (1415680456, .dataFile),   -- device.state.loadSpocFile: os.ReadFile 
+  (256500083, .arguments),   -- doapprove.Main: os.Args 
+  (273277702, .arguments),   -- doapprove.Main$lit1: os.Args 
+  (3381454832, .flag),   -- doapprove.Main: flag.BoolP brief
+  (1528137050, .dataFile),   -- doapprove.Main: os.ReadFile 
+  (771325420, .arguments),   -- drc.Main: os.Args 
+  (821658277, .arguments),   -- drc.Main$lit1: os.Args 
+  (1802518308, .flag),   -- drc.Main: flag.BoolP compare
+  (3679324303, .flag),   -- drc.Main: flag.StringP logdir
+  (1846056336, .flag),   -- drc.Main: flag.StringP LOGFILE
+  (3649235345, .flag),   -- drc.Main: flag.StringP user
+  (926421715, .flag),   -- drc.Main: flag.BoolP quiet
+  (1341894647, .flag)   -- drc.Main: flag.BoolP version
+]
+
+def inputKind (id : Nat) : List (Nat × InputKind) → Option InputKind
+  | [] => none
+  | (i, k) :: r => if i = id then some k else inputKind id r
+
+/-- Input places the table does not know: a new way for data (a password?) to enter. -/
+def unclassifiedInputs : List Nat :=
+  (inputs.filter fun i => (inputKind i.id inputKinds).isNone).map (·.id)
+
+/-- Password inputs (by the table) that the taint analysis does not seed. -/
+def unseededPasswordInputs : List Nat :=
+  (inputs.filter fun i => ((inputKind i.id inputKinds).map (·.isPassword)) == some true && !i.seeded).map (·.id)
+
+/-- Seeded inputs, as the translator sees them. -/
+def seededInputs : List Nat := (inputs.filter (·.seeded)).map (·.id)
+
+/-- Flags and environment variables by name. -/
+def inputNames (api : String) : List String := (inputs.filter fun i => i.api == api).map (·.lit)
+
 /-! ## runs derived from the regenerated steps -/
 
 open NA.Mask in
